@@ -11,6 +11,15 @@ PY = "/venv/bin/python"
 
 # property -> (technique, level text, level note, design ref)
 CLAIMED = {
+    "C20": ("TLA+ specification of on-disk access (spec/MC_C20.tla: ReadVar = Take(Load), DiskAssign; Load = Put(Load), unlimited-dimension "
+            "appends, multi-file reads as stack / concatenate) enumerated by TLC; executed through open_nc / read_nc against the netCDF4 stand-in",
+            "TLC enumerates, for five stored variables (2-d float with NaN, 2-d int32 with str labels, 1-d int64, 1-d float for tolerances, 0-d), "
+            "every index tuple of the per-dimension menus (scalars incl. absent, lists incl. empty and repeated, masks, slices; label and position "
+            "mode; tolerances), 857 single and double on-disk assignments followed by a full read, 40 unlimited-dimension append histories (1-d and "
+            "2-d, int and str labels, single slices and slabs, starting empty or filled) and 48 multi-file configurations. Reads are compared with "
+            "the spec's Take and with the same index on the loaded array through 6-7 spellings and both read profiles.",
+            "Trusted: TLC, NumPy, harness/ncstub/netCDF4 (API contract), write_nc (C19), stack_ds / concatenate_ds (C12, C14) as the multi-file oracle.",
+            "5 (C20), 9.1"),
     "C19": ("TLA+ state machine of the netCDF file as seen through dimarray.io.nc (spec/NcStore.tla: write_nc of Datasets and arrays with modes "
             "w / w- / a / a+, open_nc setitem, two formats; invariant Consistent, action properties AppendKeeps / FailUnchanged) model-checked by TLC; "
             "every edge replayed against dimarray with a documented netCDF4 stand-in, the file read back after every step; JSON round trip per array",
